@@ -134,6 +134,11 @@ def run_inprocess(case, seed):
     PtTebdBackend.apply_nn_gate_layer = wrapped
     try:
         tebd, rhos, dyn_sites = build(case, seed)
+        if case["n"] >= 2 and (case["l"] + case["order"] + len(case["ctl"])) % 2 == 0:
+            # the computation is done in two calls with a look at the current state in between (every other configuration)
+            tebd.compute(1, progress_type="silent")
+            for sites in dyn_sites:
+                tebd.get_current_density_matrix(sites)
         res = tebd.compute(case["n"], progress_type="silent")
     finally:
         PtTebdBackend.apply_nn_gate_layer = orig
